@@ -9,6 +9,23 @@ META = {
     "assumptions": ["the copies' pairwise distances are equal and <= 1, their distances to every other sequence are equal and >= 1 + d/2 (established by lemma L1 + C11 under the containment premise)"],
 }
 
+def dist_instances(tier, ob="L1"):
+    out = []
+    lens = [(2, 2), (3, 3), (3, 2), (4, 2)] if tier == "quick" else [(a, b) for a in (1, 2, 3, 4) for b in (1, 2, 3, 4) if a >= b] + [(3, 3, 2), (2, 2, 2)]
+    for ls in lens:
+        d = {"VK_NS": len(ls), "NOHAVE_AVX2": None}
+        for k, l in enumerate(ls):
+            d["VK_LEN%d" % k] = l
+        out.append(Inst(ob=ob, name="dist_%s" % "_".join(map(str, ls)), harness="c12_dist.c", defs=d,
+                        srcs=["lib/src/sequence_distance.c", "lib/src/bpm.c"], models=["models/vin.c", "models/msg.c"],
+                        pre_link=[(["lib/src/tldevel.c"], [], ["--remove-function-body", "error", "--remove-function-body", "warning", "--remove-function-body", "log_message"])],
+                        native_srcs=["lib/src/tldevel.c"], unwind=70, unwind_pat=MK_MSA_UNWIND + BPM_UNWIND, nb=4 * len(ls), ni=3, timeout=900, mem_gb=6,
+                        funcs=["d_estimation", "calc_distance", "bpm_block", "alloc_2D_array_size_float"], cost=sum(ls) * 4,
+                        bound="%d sequences of lengths %s over 13 classes, all contents and all ranks symbolic" % (len(ls), ls),
+                        desc="distance lemma: equal -> <= 1, not contained -> >= 1 + length term, symmetric, independent of the caller's ranks"))
+    return out
+
+
 def instances(tier):
     out = []
     masks = [(3, 0b011), (3, 0b101), (3, 0b110), (4, 0b0011), (4, 0b1010), (4, 0b0111)] if tier == "quick" else \
@@ -20,16 +37,5 @@ def instances(tier):
         i.nf = ns * (ns - 1) // 2 + 1
         i.bound = "%d leaves, copies = index mask 0x%x, all other distances symbolic" % (ns, m)
         out.append(i)
-    lens = [(2, 2), (3, 3), (3, 2), (4, 2)] if tier == "quick" else [(a, b) for a in (1, 2, 3, 4) for b in (1, 2, 3, 4) if a >= b] + [(3, 3, 2), (2, 2, 2)]
-    for ls in lens:
-        d = {"VK_NS": len(ls), "NOHAVE_AVX2": None}
-        for k, l in enumerate(ls):
-            d["VK_LEN%d" % k] = l
-        out.append(Inst(ob="L1", name="dist_%s" % "_".join(map(str, ls)), harness="c12_dist.c", defs=d,
-                        srcs=["lib/src/sequence_distance.c", "lib/src/bpm.c"], models=["models/vin.c", "models/msg.c"],
-                        pre_link=[(["lib/src/tldevel.c"], [], ["--remove-function-body", "error", "--remove-function-body", "warning", "--remove-function-body", "log_message"])],
-                        native_srcs=["lib/src/tldevel.c"], unwind=70, unwind_pat=MK_MSA_UNWIND + BPM_UNWIND, nb=4 * len(ls), timeout=900, mem_gb=6,
-                        funcs=["d_estimation", "calc_distance", "bpm_block", "alloc_2D_array_size_float"], cost=sum(ls) * 4,
-                        bound="%d sequences of lengths %s over 13 classes, all contents symbolic" % (len(ls), ls),
-                        desc="distance lemma: equal -> <= 1, not contained -> >= 1 + length term, symmetric"))
+    out += dist_instances(tier)
     return out
